@@ -7,7 +7,7 @@ PROPS["C19"] = {
     "modelled": "go_parser.go.tmpl with IsRecovering: the main loop's error branch (recovering counter, lastErr, handler), recoverFromError (recoverPos, afterErr bit set, skipBrokenCode, reduceAll incl. its stack2 simulation, error range computation, pushing the error entry). "
                 "Not modelled: recoveryScope markers, pending reported tokens and invalid-token coverage, parsers/js/parser_impl.go",
     "partial": "proved: transparency, error positions, termination of the recovery loop, progress after recovery (the loop replays reduceAll's reductions and shifts the token; each episode consumes a token or ends the parse), "
-               "termination of the whole recovering parse RELATIVE to termination of the plain loop's reduction sequences. Not proved: an explicit linear fuel bound (needs a bound on plain reduction sequences, not provided by C01) and panic-freedom of reduceAll (monitored under a time limit / recover()).",
+               "termination of the whole recovering parse RELATIVE to termination of the plain loop's reduction sequences. An explicit fuel bound ((|input|+1)*(2R+3)+R+1 iterations) is proved under a uniform bound R on plain reduction sequences (C19_recovering_parse_fuel_bound). Not proved: those hypotheses about the plain loop's reductions from the C01 validator conditions, and panic-freedom of reduceAll (monitored under a time limit / recover()).",
     "level_text": "Coq theorems (Props/C19.v) for EVERY table set, event table, input, error handler and fuel: on inputs the loop accepts without recovery, the recovering loop accepts with the same stack and events and never calls the handler; "
                   "every reported error is the range of an input token (or of end-of-input) and error offsets never decrease; the loop inside recoverFromError terminates. "
                   "Progress (for LALR(1) tables whose reduceAll shift test agrees with the loop; both hold for the default and the optimized encoding): after a successful recoverFromError the main loop performs exactly the reductions reduceAll simulated on its state stack (at most 4*(|stack|+1)+64, input and error list untouched) and then shifts the next token or is in the end state, "
